@@ -318,5 +318,33 @@ def normalize (v : Variant) (style : List Char) : Except StyleErr (List Char) :=
   | .error .styleSyntax => .ok (lower (strip style))
   | .error e => .error e
 
+/-! ### well-formedness: the styles whose string form parses back to themselves
+
+Decidable, and satisfied by every style `parse` returns (`Lemmas/StyleText.lean`).  It excludes what
+the grammar of style definitions cannot express: a link that is empty or contains white space, a
+colour whose name is not a definition of that very colour (e.g. a down-converted colour, which keeps
+its name but changes its type), attribute bits outside the 13 known ones. -/
+
+/-- No `str.isspace` character. -/
+def noSpace (s : List Char) : Bool := s.all fun c => !isSpace c
+
+/-- The colour's name is white-space free and is a definition of this very colour. -/
+def wfColor (v : Variant) (c : Color) : Bool :=
+  noSpace c.name &&
+    match Color.parse v c.name with
+    | .ok c' => decide (c' = c)
+    | .error _ => false
+
+/-- `None`, or a non-empty word. -/
+def wfLink : Option (List Char) → Bool
+  | none => true
+  | some l => !l.isEmpty && noSpace l
+
+def wf (v : Variant) (s : Style) : Bool :=
+  decide (s.attributes &&& s.setAttributes = s.attributes) && decide (s.setAttributes < 8192) &&
+    (match s.color with | none => true | some c => wfColor v c) &&
+    (match s.bgcolor with | none => true | some c => wfColor v c) &&
+    wfLink s.link
+
 end Style
 end RichModel
